@@ -42,7 +42,20 @@ func cmdC06Worker(args []string) {
 	w := bufio.NewWriter(os.Stdout)
 	for {
 		line, err := rd.ReadBytes('\n')
-		if len(bytes.TrimSpace(line)) > 0 {
+		if len(bytes.TrimSpace(line)) > 0 && bytes.TrimSpace(line)[0] == '{' {
+			// a generated input that is too large to ship or to hand to TLC: build it here, report outcome types only
+			var g bigGen
+			must(json.Unmarshal(line, &g))
+			res := hostileResults(g.build())
+			types := []Val{}
+			for _, v := range res {
+				types = append(types, Val{T: v.T})
+			}
+			b, _ := json.Marshal(types)
+			w.Write(b)
+			w.WriteByte('\n')
+			w.Flush()
+		} else if len(bytes.TrimSpace(line)) > 0 {
 			var in []int
 			must(json.Unmarshal(line, &in))
 			res := hostileResults(unB(in))
@@ -55,6 +68,36 @@ func cmdC06Worker(args []string) {
 			return
 		}
 	}
+}
+
+// bigGen describes a large generated input: Unit repeated N times, then Tail.
+type bigGen struct {
+	Gen  string `json:"gen"`
+	Unit string `json:"unit"`
+	N    int    `json:"n"`
+	Tail string `json:"tail"`
+}
+
+func (g bigGen) build() []byte {
+	return append(bytes.Repeat([]byte(g.Unit), g.N), g.Tail...)
+}
+
+// runGen runs one generated input in its own limited worker; nil = the worker died.
+func runGen(g bigGen, vmKB int) []Val {
+	self, _ := os.Executable()
+	cmd := exec.Command("sh", "-c", fmt.Sprintf("ulimit -v %d; exec %s c06worker", vmKB, self))
+	b, _ := json.Marshal(g)
+	cmd.Stdin = bytes.NewReader(append(b, '\n'))
+	cmd.Stderr = io.Discard
+	out, err := cmd.Output()
+	if err != nil || len(bytes.TrimSpace(out)) == 0 {
+		return nil
+	}
+	var res []Val
+	if json.Unmarshal(bytes.TrimSpace(out), &res) != nil {
+		return nil
+	}
+	return res
 }
 
 // runInWorker runs inputs one after another in limited subprocesses; an input
@@ -221,6 +264,24 @@ func cmdC06(args []string) {
 			res = []Val{}
 		}
 		rec.Emit(Ev{"ev": "hostile", "input": B(in), "res": res, "alive": alive, "src": srcs[i], "isolated": risky(in)})
+	}
+	// nesting: "*1\r\n" repeated n times, complete (a leaf follows) or cut off; far deeper than any stack allows
+	id := len(inputs)
+	if *exh > 0 {
+		for _, n := range []int{10, 1000, 9999, 10000, 10001, 100000, 6000000} {
+			for _, tail := range []string{":1\r\n", ""} {
+				g := bigGen{Gen: "nest", Unit: "*1\r\n", N: n, Tail: tail}
+				res := runGen(g, *vm)
+				id++
+				rec.Begin(id)
+				alive := res != nil
+				if res == nil {
+					res = []Val{}
+				}
+				rec.Emit(Ev{"ev": "hostilebig", "gen": g.Gen, "n": g.N, "complete": tail != "", "res": res, "alive": alive,
+					"src": "nesting", "input": B([]byte(fmt.Sprintf("(*1 CRLF) x %d%s", g.N, map[bool]string{true: " :1 CRLF", false: ""}[tail != ""])))})
+			}
+		}
 	}
 	must(rec.Close())
 	fmt.Printf("c06: %d inputs, %d isolated\n", len(inputs), len(riskyIdx))
